@@ -289,7 +289,13 @@ def run(repo, chk):
     # otherwise `Jump([defeat]); Halt` at a defeat site is not averted by any enclosing jump
     from . import c02
     from ..report import Remap
-    c02.run(repo, Remap(chk, {'C02.T3': 'C03.J5', 'C02.T4': 'C03.J5', 'C02.T7': 'C03.J5'}))
+    # of the stop protocol (C02.T2) the parts C03 needs: every try/stop arm installs the handler and
+    # virtualises the defeat word before its body is generated (a body compiled without it turns a defeat
+    # nested in an expression into a committed halt), and only Mov(defeat, halt) sits behind Jump(begin_try).
+    # The fp/ap restore order is C08's concern and is not imported.
+    def t2_part(construct):
+        return None if construct.endswith('::restore-order') else 'C03.J5'
+    c02.run(repo, Remap(chk, {'C02.T2': t2_part, 'C02.T3': 'C03.J5', 'C02.T4': 'C03.J5', 'C02.T7': 'C03.J5'}))
     chk.sample({'jump_site_forms': {s: sorted(f) for s, f in list(sorted(site_forms.items()))[:10]}})
     chk.sample({'stdlib_jump_roles': [f'{at.ins[i]} -> {r[0]}' for i, r in list(sorted(tf.jumps.items()))[:8]]})
     chk.not_decided = ['the VM implementation of the Turing jump', 'behaviour excluded by the property (UB)']
